@@ -1,10 +1,10 @@
-/- Operation handlers of the line-protocol driver: each returns (model answer, spec verdict). -/
-import Kitoken.Driver.Parse
-import Kitoken.Model.Process
+/- Operation handlers of the line-protocol driver: each returns "<model answer> || <spec verdict>". -/
+import Kitoken.Driver.Def
 import Kitoken.Spec.Process
+import Kitoken.Spec.Decoder
 namespace Kitoken.Driver
 
-open Kitoken
+open Kitoken Std
 
 def parseDir : String → Option Direction
   | "L" => some .left
@@ -22,19 +22,28 @@ def parseProcessing (s : String) : Option Processing :=
 def parseSteps (f : String → Option α) (s : String) : Option (List α) :=
   if s == "-" then some [] else (s.splitOn ",").mapM f
 
+def showErr : Err → String
+  | .invalidPiece b => s!"ERR piece {toHex b}"
+  | .invalidToken i => s!"ERR token {i.toNat}"
+  | .other t => s!"ERR {t}"
+
 def showResIds : Res (List Id) → String
   | .ok ids => s!"OK {showIds ids}"
-  | .err (.invalidPiece b) => s!"ERR piece {toHex b}"
-  | .err (.invalidToken i) => s!"ERR token {i.toNat}"
-  | .err (.other t) => s!"ERR {t}"
+  | .err e => showErr e
   | .panic _ => "PANIC"
 
 def showResBytes : Res Bytes → String
   | .ok b => s!"OK {toHex b}"
-  | .err (.invalidPiece b) => s!"ERR piece {toHex b}"
-  | .err (.invalidToken i) => s!"ERR token {i.toNat}"
-  | .err (.other t) => s!"ERR {t}"
+  | .err e => showErr e
   | .panic _ => "PANIC"
+
+def showOutIds : Out (List Id) → String
+  | .res r => showResIds r
+  | .miss w => s!"MISS {w}"
+
+def showOutBytes : Out Bytes → String
+  | .res r => showResBytes r
+  | .miss w => s!"MISS {w}"
 
 /-- Parses an implementation answer of the form `OK <ids>` / `PANIC` / `ERR …`. -/
 def parseImplIds (ws : List String) : Option (Res (List Id)) :=
@@ -46,10 +55,17 @@ def parseImplIds (ws : List String) : Option (Res (List Id)) :=
   | ["ERR", "token", i] => i.toNat?.map fun i => .err (.invalidToken (UInt32.ofNat i))
   | _ => none
 
-/-- Verdict of the C13 specification on what the implementation returned for a list of steps:
-    each step must have its documented effect on the result of the previous one. Since only the
-    final output is observed, intermediate values are reconstructed by the reference steps
-    (`Spec.stepHolds` is checked on the last step; earlier steps are checked on their own ops). -/
+def parseImplBytes (ws : List String) : Option (Res Bytes) :=
+  match ws with
+  | ["OK", b] => (parseHex b).map .ok
+  | ["PANIC"] => some (.panic "impl")
+  | ["CRASH"] => some (.panic "crash")
+  | ["ERR", "piece", b] => (parseHex b).map fun b => .err (.invalidPiece b)
+  | ["ERR", "token", i] => i.toNat?.map fun i => .err (.invalidToken (UInt32.ofNat i))
+  | _ => none
+
+/-! ### C13: token steps and byte steps -/
+
 def procVerdict (steps : List Processing) (ts : List Id) (impl : Res (List Id)) : String :=
   match impl with
   | .ok out =>
@@ -57,7 +73,7 @@ def procVerdict (steps : List Processing) (ts : List Id) (impl : Res (List Id)) 
     else match steps with
       | [] => if out == ts then "HOLDS" else "FAILS no-steps-changed"
       | [p] => if Spec.stepHolds p ts out then "HOLDS" else "FAILS step-effect"
-      | _ => "HOLDS-NA"     -- multi-step: judged through the model (each step is judged alone elsewhere)
+      | _ => "HOLDS-NA"
   | _ => "FAILS not-total"
 
 def handleProc (args : List String) (impl : List String) : String :=
@@ -67,6 +83,144 @@ def handleProc (args : List String) (impl : List String) : String :=
     | some steps, some ts, some impl =>
       s!"{showResIds (configProcess steps ts)} || {procVerdict steps ts impl}"
     | _, _, _ => "BAD-OP"
+  | _ => "BAD-OP"
+
+def splitOracle (args : List String) : List String × List OracleEntry :=
+  (args.filter (!isOracleWord ·), (args.filter isOracleWord).filterMap parseOracle)
+
+def handleDecStep (args : List String) (impl : List String) : String :=
+  let (args, tab) := splitOracle args
+  match args with
+  | [steps, text] =>
+    match parseSteps parseDecoding steps, parseHex text, parseImplBytes impl with
+    | some steps, some t, some impl =>
+      let model := match configDecode (mkExt tab).dec steps t with
+        | none => "MISS decode replace"
+        | some r => showResBytes r
+      let verdict := match impl with | .ok _ => "HOLDS-NA" | _ => "FAILS not-total"
+      s!"{model} || {verdict}"
+    | _, _, _ => "BAD-OP"
+  | _ => "BAD-OP"
+
+/-! ### definitions and the full pipeline -/
+
+structure State where
+  building : HashMap Nat DefBuild := {}
+  toks : HashMap Nat (Tokenizer Float) := {}
+
+def showInit : Except InitError (Tokenizer Float) → String
+  | .ok _ => "OK"
+  | .error .invalidScores => "ERR InvalidScores"
+  | .error .invalidEncoder => "ERR InvalidEncoder"
+  | .error .invalidSpecialEncoder => "ERR InvalidSpecialEncoder"
+  | .error .invalidUtf8 => "ERR InvalidUtf8"
+  | .error .invalidRegex => "ERR InvalidRegex"
+
+def handleDef (st : State) (args : List String) : State × String :=
+  match args with
+  | slot :: rest =>
+    match slot.toNat? with
+    | none => (st, "BAD-OP")
+    | some slot =>
+      -- take the builder out of the map first so that its arrays are updated in place
+      let b := st.building.getD slot {}
+      let st := { st with building := st.building.erase slot }
+      let upd (b' : Option DefBuild) : State × String :=
+        match b' with
+        | some b' => ({ st with building := st.building.insert slot b' }, "ACK")
+        | none => (st, "BAD-OP")
+      match rest with
+      | ["NEW", kind, chars, maxw] =>
+        upd (do pure { kind := kind, chars := ← parseBool chars, maxWordChars := ← maxw.toNat? })
+      | ["V", id, hex, score] =>
+        upd (do
+          let i ← id.toNat?; let h ← parseHex hex
+          -- move the arrays out of the record before pushing, so that they are unshared
+          let vocab := b.vocab; let scores := b.scores
+          let b := { b with vocab := #[], scores := #[] }
+          let scores ← if score == "none" then some scores else score.toNat?.map fun s => scores.push (UInt32.ofNat s)
+          pure { b with vocab := vocab.push (UInt32.ofNat i, h), scores := scores })
+      | ["S", id, hex, kind, extract, score, ident] =>
+        upd (do
+          let i ← id.toNat?; let h ← parseHex hex; let k ← parseKind kind; let e ← parseBool extract
+          let s ← score.toNat?
+          let idn ← if ident == "none" then some none else (parseHex ident).map some
+          let sp : SpecialDef := { id := UInt32.ofNat i, bytes := h, kind := k, ident := idn, score := UInt32.ofNat s, extract := e }
+          pure { b with specials := b.specials.push sp })
+      | ["XS", score] =>
+        upd (do let s ← score.toNat?; pure { b with scores := b.scores.push (UInt32.ofNat s) })
+      | ["FB", l] => upd (do pure { b with fallback := ← parseSteps parseFallback l })
+      | ["N", e] => upd (do pure { b with norm := b.norm.push (← parseNormalization e) })
+      | ["SP", e] => upd (do pure { b with split := b.split.push (← parseSplit e) })
+      | ["PR", e] => upd (do pure { b with processing := b.processing.push (← parseProcessing e) })
+      | ["DC", e] => upd (do pure { b with decoding := b.decoding.push (← parseDecoding e) })
+      | ["TPL", pos, hex] =>
+        upd (do
+          let c ← parseHex hex; let n ← pos.toNat?; let p ← parsePosition n
+          pure { b with templates := b.templates.push ⟨c, p⟩ })
+      | ["END"] =>
+        let r := Tokenizer.new b.toDefinition
+        let st' := match r with
+          | .ok tk => { st with toks := st.toks.insert slot tk, building := st.building.erase slot }
+          | .error _ => { st with toks := st.toks.erase slot, building := st.building.erase slot }
+        (st', s!"{showInit r} || HOLDS-NA")
+      | _ => (st, "BAD-OP")
+  | _ => (st, "BAD-OP")
+
+def handleEnc (st : State) (args : List String) (_impl : List String) : String :=
+  let (args, tab) := splitOracle args
+  match args with
+  | [slot, s, text] =>
+    match slot.toNat?.bind (st.toks[·]?), parseBool s, parseHex text with
+    | some tk, some s, some t =>
+      s!"{showOutIds (tk.encode (mkExt tab) t s)} || HOLDS-NA"
+    | _, _, _ => "BAD-OP"
+  | _ => "BAD-OP"
+
+def handleDec (st : State) (args : List String) (impl : List String) : String :=
+  let (args, tab) := splitOracle args
+  match args with
+  | [slot, s, ids] =>
+    match slot.toNat?.bind (st.toks[·]?), parseBool s, parseIds ids with
+    | some tk, some s, some ids =>
+      let verdict :=
+        match parseImplBytes impl with
+        | some (.panic _) => "FAILS panic"
+        | some r =>
+          -- C08: before clean-up the decoder must equal its specification; with no clean-up steps
+          -- the implementation's answer itself is judged.
+          if tk.config.decoding.isEmpty then
+            (if showResBytes (Spec.decoderSpec tk.dec ids s) == showResBytes r then "HOLDS" else "FAILS decoder-spec")
+          else "HOLDS-NA"
+        | none => "NO-VERDICT"
+      s!"{showOutBytes (tk.decode (mkExt tab) ids s)} || {verdict}"
+    | _, _, _ => "BAD-OP"
+  | _ => "BAD-OP"
+
+def handleSplit (args : List String) (_impl : List String) : String :=
+  let (args, tab) := splitOracle args
+  match args with
+  | [steps, text] =>
+    match parseSteps parseSplit steps, parseHex text with
+    | some steps, some t =>
+      let model := match configSplit (mkExt tab).split steps t with
+        | none => "MISS split"
+        | some rs => s!"OK {showRanges rs}"
+      s!"{model} || HOLDS-NA"
+    | _, _ => "BAD-OP"
+  | _ => "BAD-OP"
+
+def handleNorm (args : List String) (_impl : List String) : String :=
+  let (args, tab) := splitOracle args
+  match args with
+  | [steps, start, toEnd, text] =>
+    match parseSteps parseNormalization steps, start.toNat?, parseBool toEnd, parseHex text with
+    | some steps, some start, some toEnd, some t =>
+      let model := match configNormalize (mkExt tab).norm steps ⟨start, toEnd⟩ t with
+        | none => "MISS normalize"
+        | some r => showResBytes r
+      s!"{model} || HOLDS-NA"
+    | _, _, _, _ => "BAD-OP"
   | _ => "BAD-OP"
 
 end Kitoken.Driver
